@@ -196,6 +196,12 @@ theories/FileIO/Chunks.vos theories/FileIO/Chunks.vok theories/FileIO/Chunks.req
 theories/FileIO/ChunksProofs.vo theories/FileIO/ChunksProofs.glob theories/FileIO/ChunksProofs.v.beautified theories/FileIO/ChunksProofs.required_vo: theories/FileIO/ChunksProofs.v theories/FileIO/Chunks.vo
 theories/FileIO/ChunksProofs.vio: theories/FileIO/ChunksProofs.v theories/FileIO/Chunks.vio
 theories/FileIO/ChunksProofs.vos theories/FileIO/ChunksProofs.vok theories/FileIO/ChunksProofs.required_vos: theories/FileIO/ChunksProofs.v theories/FileIO/Chunks.vos
-theories/Properties_C09.vo theories/Properties_C09.glob theories/Properties_C09.v.beautified theories/Properties_C09.required_vo: theories/Properties_C09.v theories/FileIO/Chunks.vo theories/FileIO/ChunksProofs.vo
-theories/Properties_C09.vio: theories/Properties_C09.v theories/FileIO/Chunks.vio theories/FileIO/ChunksProofs.vio
-theories/Properties_C09.vos theories/Properties_C09.vok theories/Properties_C09.required_vos: theories/Properties_C09.v theories/FileIO/Chunks.vos theories/FileIO/ChunksProofs.vos
+theories/FileIO/FileSpec.vo theories/FileIO/FileSpec.glob theories/FileIO/FileSpec.v.beautified theories/FileIO/FileSpec.required_vo: theories/FileIO/FileSpec.v 
+theories/FileIO/FileSpec.vio: theories/FileIO/FileSpec.v 
+theories/FileIO/FileSpec.vos theories/FileIO/FileSpec.vok theories/FileIO/FileSpec.required_vos: theories/FileIO/FileSpec.v 
+theories/FileIO/FileSpecProofs.vo theories/FileIO/FileSpecProofs.glob theories/FileIO/FileSpecProofs.v.beautified theories/FileIO/FileSpecProofs.required_vo: theories/FileIO/FileSpecProofs.v theories/FileIO/FileSpec.vo
+theories/FileIO/FileSpecProofs.vio: theories/FileIO/FileSpecProofs.v theories/FileIO/FileSpec.vio
+theories/FileIO/FileSpecProofs.vos theories/FileIO/FileSpecProofs.vok theories/FileIO/FileSpecProofs.required_vos: theories/FileIO/FileSpecProofs.v theories/FileIO/FileSpec.vos
+theories/Properties_C09.vo theories/Properties_C09.glob theories/Properties_C09.v.beautified theories/Properties_C09.required_vo: theories/Properties_C09.v theories/FileIO/Chunks.vo theories/FileIO/ChunksProofs.vo theories/FileIO/FileSpec.vo theories/FileIO/FileSpecProofs.vo
+theories/Properties_C09.vio: theories/Properties_C09.v theories/FileIO/Chunks.vio theories/FileIO/ChunksProofs.vio theories/FileIO/FileSpec.vio theories/FileIO/FileSpecProofs.vio
+theories/Properties_C09.vos theories/Properties_C09.vok theories/Properties_C09.required_vos: theories/Properties_C09.v theories/FileIO/Chunks.vos theories/FileIO/ChunksProofs.vos theories/FileIO/FileSpec.vos theories/FileIO/FileSpecProofs.vos
